@@ -374,7 +374,7 @@ class MandolineT(ToolCase):
             if self.normal is not None:
                 argv += ["-n", str(self.normal)]
             if self.pos is not None:
-                argv += ["-p", repr(self.pos)]
+                argv += ["--position=" + repr(self.pos)]     # (argparse takes '-5e-05' for an option)
             if self.serial:
                 argv += ["-s"]
             return run_tool(ctx, cli.main, cwd=cwd, argv=argv, label=f"mandoline {argv[1:]}")
